@@ -814,6 +814,9 @@ class Evaluator:
         return ExtVal(_canon_ext(dotted))
 
     def builtin(self, name):
+        h = self.ext_calls.get(f"builtins.{name}")  # a rule-supplied model of a builtin with side effects (open)
+        if h is not None:
+            return _NativeFn(lambda *a, _h=h, **k: _h(self, *a, **k))
         if name in _BUILTINS:
             return _BUILTINS[name]
         raise Undecided(f"unknown name {name}")
